@@ -71,31 +71,33 @@ Record st := mkSt {
   cons : list (nat * bool);
   (* persistent queue, storage faults: ids of queued requests whose stored copy has become unreadable *)
   corrupt : list nat;
-  dropped : list nat              (* ghost: ids dropped by getNextItem (never handed over) *)
+  dropped : list nat;             (* ghost: ids dropped by getNextItem (never handed over) *)
+  faulty : list (nat * Z)         (* persistent queue: parked producers whose request will fail Marshal (9) / the storage write (22) *)
 }.
 
-Definition init : st := mkSt 0 [] [] false 0 false Free [] [] [] [] [] [] [] [] 0%nat 0%nat [] [] [].
+Definition init : st := mkSt 0 [] [] false 0 false Free [] [] [] [] [] [] [] [] 0%nat 0%nat [] [] [] [].
 
-Definition set_size v s := mkSt v (items s) (inflight s) (stopped s) (waiting s) (tok s) (lock s) (prods s) (cancelled s) (results s) (acc s) (hand s) (fin s) (pool s) (held s) (nobj s) (pick s) (cons s) (corrupt s) (dropped s).
-Definition set_items v s := mkSt (size s) v (inflight s) (stopped s) (waiting s) (tok s) (lock s) (prods s) (cancelled s) (results s) (acc s) (hand s) (fin s) (pool s) (held s) (nobj s) (pick s) (cons s) (corrupt s) (dropped s).
-Definition set_inflight v s := mkSt (size s) (items s) v (stopped s) (waiting s) (tok s) (lock s) (prods s) (cancelled s) (results s) (acc s) (hand s) (fin s) (pool s) (held s) (nobj s) (pick s) (cons s) (corrupt s) (dropped s).
-Definition set_stopped v s := mkSt (size s) (items s) (inflight s) v (waiting s) (tok s) (lock s) (prods s) (cancelled s) (results s) (acc s) (hand s) (fin s) (pool s) (held s) (nobj s) (pick s) (cons s) (corrupt s) (dropped s).
-Definition set_waiting v s := mkSt (size s) (items s) (inflight s) (stopped s) v (tok s) (lock s) (prods s) (cancelled s) (results s) (acc s) (hand s) (fin s) (pool s) (held s) (nobj s) (pick s) (cons s) (corrupt s) (dropped s).
-Definition set_tok v s := mkSt (size s) (items s) (inflight s) (stopped s) (waiting s) v (lock s) (prods s) (cancelled s) (results s) (acc s) (hand s) (fin s) (pool s) (held s) (nobj s) (pick s) (cons s) (corrupt s) (dropped s).
-Definition set_lock v s := mkSt (size s) (items s) (inflight s) (stopped s) (waiting s) (tok s) v (prods s) (cancelled s) (results s) (acc s) (hand s) (fin s) (pool s) (held s) (nobj s) (pick s) (cons s) (corrupt s) (dropped s).
-Definition set_prods v s := mkSt (size s) (items s) (inflight s) (stopped s) (waiting s) (tok s) (lock s) v (cancelled s) (results s) (acc s) (hand s) (fin s) (pool s) (held s) (nobj s) (pick s) (cons s) (corrupt s) (dropped s).
-Definition set_cancelled v s := mkSt (size s) (items s) (inflight s) (stopped s) (waiting s) (tok s) (lock s) (prods s) v (results s) (acc s) (hand s) (fin s) (pool s) (held s) (nobj s) (pick s) (cons s) (corrupt s) (dropped s).
-Definition set_results v s := mkSt (size s) (items s) (inflight s) (stopped s) (waiting s) (tok s) (lock s) (prods s) (cancelled s) v (acc s) (hand s) (fin s) (pool s) (held s) (nobj s) (pick s) (cons s) (corrupt s) (dropped s).
-Definition set_acc v s := mkSt (size s) (items s) (inflight s) (stopped s) (waiting s) (tok s) (lock s) (prods s) (cancelled s) (results s) v (hand s) (fin s) (pool s) (held s) (nobj s) (pick s) (cons s) (corrupt s) (dropped s).
-Definition set_hand v s := mkSt (size s) (items s) (inflight s) (stopped s) (waiting s) (tok s) (lock s) (prods s) (cancelled s) (results s) (acc s) v (fin s) (pool s) (held s) (nobj s) (pick s) (cons s) (corrupt s) (dropped s).
-Definition set_fin v s := mkSt (size s) (items s) (inflight s) (stopped s) (waiting s) (tok s) (lock s) (prods s) (cancelled s) (results s) (acc s) (hand s) v (pool s) (held s) (nobj s) (pick s) (cons s) (corrupt s) (dropped s).
-Definition set_pool v s := mkSt (size s) (items s) (inflight s) (stopped s) (waiting s) (tok s) (lock s) (prods s) (cancelled s) (results s) (acc s) (hand s) (fin s) v (held s) (nobj s) (pick s) (cons s) (corrupt s) (dropped s).
-Definition set_held v s := mkSt (size s) (items s) (inflight s) (stopped s) (waiting s) (tok s) (lock s) (prods s) (cancelled s) (results s) (acc s) (hand s) (fin s) (pool s) v (nobj s) (pick s) (cons s) (corrupt s) (dropped s).
-Definition set_nobj v s := mkSt (size s) (items s) (inflight s) (stopped s) (waiting s) (tok s) (lock s) (prods s) (cancelled s) (results s) (acc s) (hand s) (fin s) (pool s) (held s) v (pick s) (cons s) (corrupt s) (dropped s).
-Definition set_pick v s := mkSt (size s) (items s) (inflight s) (stopped s) (waiting s) (tok s) (lock s) (prods s) (cancelled s) (results s) (acc s) (hand s) (fin s) (pool s) (held s) (nobj s) v (cons s) (corrupt s) (dropped s).
-Definition set_cons v s := mkSt (size s) (items s) (inflight s) (stopped s) (waiting s) (tok s) (lock s) (prods s) (cancelled s) (results s) (acc s) (hand s) (fin s) (pool s) (held s) (nobj s) (pick s) v (corrupt s) (dropped s).
-Definition set_corrupt v s := mkSt (size s) (items s) (inflight s) (stopped s) (waiting s) (tok s) (lock s) (prods s) (cancelled s) (results s) (acc s) (hand s) (fin s) (pool s) (held s) (nobj s) (pick s) (cons s) v (dropped s).
-Definition set_dropped v s := mkSt (size s) (items s) (inflight s) (stopped s) (waiting s) (tok s) (lock s) (prods s) (cancelled s) (results s) (acc s) (hand s) (fin s) (pool s) (held s) (nobj s) (pick s) (cons s) (corrupt s) v.
+Definition set_size v s := mkSt v (items s) (inflight s) (stopped s) (waiting s) (tok s) (lock s) (prods s) (cancelled s) (results s) (acc s) (hand s) (fin s) (pool s) (held s) (nobj s) (pick s) (cons s) (corrupt s) (dropped s) (faulty s).
+Definition set_items v s := mkSt (size s) v (inflight s) (stopped s) (waiting s) (tok s) (lock s) (prods s) (cancelled s) (results s) (acc s) (hand s) (fin s) (pool s) (held s) (nobj s) (pick s) (cons s) (corrupt s) (dropped s) (faulty s).
+Definition set_inflight v s := mkSt (size s) (items s) v (stopped s) (waiting s) (tok s) (lock s) (prods s) (cancelled s) (results s) (acc s) (hand s) (fin s) (pool s) (held s) (nobj s) (pick s) (cons s) (corrupt s) (dropped s) (faulty s).
+Definition set_stopped v s := mkSt (size s) (items s) (inflight s) v (waiting s) (tok s) (lock s) (prods s) (cancelled s) (results s) (acc s) (hand s) (fin s) (pool s) (held s) (nobj s) (pick s) (cons s) (corrupt s) (dropped s) (faulty s).
+Definition set_waiting v s := mkSt (size s) (items s) (inflight s) (stopped s) v (tok s) (lock s) (prods s) (cancelled s) (results s) (acc s) (hand s) (fin s) (pool s) (held s) (nobj s) (pick s) (cons s) (corrupt s) (dropped s) (faulty s).
+Definition set_tok v s := mkSt (size s) (items s) (inflight s) (stopped s) (waiting s) v (lock s) (prods s) (cancelled s) (results s) (acc s) (hand s) (fin s) (pool s) (held s) (nobj s) (pick s) (cons s) (corrupt s) (dropped s) (faulty s).
+Definition set_lock v s := mkSt (size s) (items s) (inflight s) (stopped s) (waiting s) (tok s) v (prods s) (cancelled s) (results s) (acc s) (hand s) (fin s) (pool s) (held s) (nobj s) (pick s) (cons s) (corrupt s) (dropped s) (faulty s).
+Definition set_prods v s := mkSt (size s) (items s) (inflight s) (stopped s) (waiting s) (tok s) (lock s) v (cancelled s) (results s) (acc s) (hand s) (fin s) (pool s) (held s) (nobj s) (pick s) (cons s) (corrupt s) (dropped s) (faulty s).
+Definition set_cancelled v s := mkSt (size s) (items s) (inflight s) (stopped s) (waiting s) (tok s) (lock s) (prods s) v (results s) (acc s) (hand s) (fin s) (pool s) (held s) (nobj s) (pick s) (cons s) (corrupt s) (dropped s) (faulty s).
+Definition set_results v s := mkSt (size s) (items s) (inflight s) (stopped s) (waiting s) (tok s) (lock s) (prods s) (cancelled s) v (acc s) (hand s) (fin s) (pool s) (held s) (nobj s) (pick s) (cons s) (corrupt s) (dropped s) (faulty s).
+Definition set_acc v s := mkSt (size s) (items s) (inflight s) (stopped s) (waiting s) (tok s) (lock s) (prods s) (cancelled s) (results s) v (hand s) (fin s) (pool s) (held s) (nobj s) (pick s) (cons s) (corrupt s) (dropped s) (faulty s).
+Definition set_hand v s := mkSt (size s) (items s) (inflight s) (stopped s) (waiting s) (tok s) (lock s) (prods s) (cancelled s) (results s) (acc s) v (fin s) (pool s) (held s) (nobj s) (pick s) (cons s) (corrupt s) (dropped s) (faulty s).
+Definition set_fin v s := mkSt (size s) (items s) (inflight s) (stopped s) (waiting s) (tok s) (lock s) (prods s) (cancelled s) (results s) (acc s) (hand s) v (pool s) (held s) (nobj s) (pick s) (cons s) (corrupt s) (dropped s) (faulty s).
+Definition set_pool v s := mkSt (size s) (items s) (inflight s) (stopped s) (waiting s) (tok s) (lock s) (prods s) (cancelled s) (results s) (acc s) (hand s) (fin s) v (held s) (nobj s) (pick s) (cons s) (corrupt s) (dropped s) (faulty s).
+Definition set_held v s := mkSt (size s) (items s) (inflight s) (stopped s) (waiting s) (tok s) (lock s) (prods s) (cancelled s) (results s) (acc s) (hand s) (fin s) (pool s) v (nobj s) (pick s) (cons s) (corrupt s) (dropped s) (faulty s).
+Definition set_nobj v s := mkSt (size s) (items s) (inflight s) (stopped s) (waiting s) (tok s) (lock s) (prods s) (cancelled s) (results s) (acc s) (hand s) (fin s) (pool s) (held s) v (pick s) (cons s) (corrupt s) (dropped s) (faulty s).
+Definition set_pick v s := mkSt (size s) (items s) (inflight s) (stopped s) (waiting s) (tok s) (lock s) (prods s) (cancelled s) (results s) (acc s) (hand s) (fin s) (pool s) (held s) (nobj s) v (cons s) (corrupt s) (dropped s) (faulty s).
+Definition set_cons v s := mkSt (size s) (items s) (inflight s) (stopped s) (waiting s) (tok s) (lock s) (prods s) (cancelled s) (results s) (acc s) (hand s) (fin s) (pool s) (held s) (nobj s) (pick s) v (corrupt s) (dropped s) (faulty s).
+Definition set_corrupt v s := mkSt (size s) (items s) (inflight s) (stopped s) (waiting s) (tok s) (lock s) (prods s) (cancelled s) (results s) (acc s) (hand s) (fin s) (pool s) (held s) (nobj s) (pick s) (cons s) v (dropped s) (faulty s).
+Definition set_dropped v s := mkSt (size s) (items s) (inflight s) (stopped s) (waiting s) (tok s) (lock s) (prods s) (cancelled s) (results s) (acc s) (hand s) (fin s) (pool s) (held s) (nobj s) (pick s) (cons s) (corrupt s) v (faulty s).
+Definition set_faulty v s := mkSt (size s) (items s) (inflight s) (stopped s) (waiting s) (tok s) (lock s) (prods s) (cancelled s) (results s) (acc s) (hand s) (fin s) (pool s) (held s) (nobj s) (pick s) (cons s) (corrupt s) (dropped s) v.
 
 (* ---- the thread map ------------------------------------------------------------------------ *)
 Fixpoint pget (p : nat) (m : list (nat * pstate)) : option pstate :=
@@ -328,8 +330,8 @@ Inductive label :=
 | LOfferF (p : nat) (sz : Z) (k : Z).
                                 (* persistent queue: Offer of a request whose Encoding.Marshal fails (k = c_marshal) or whose
                                    storage write fails (k = c_storeerr).  putInternal runs its capacity loop first; past it,
-                                   both error paths return the error and change nothing.  A faulty request that has to WAIT
-                                   (block_on_overflow) is not modelled: the step is refused. *)
+                                   both error paths return the error and change nothing.  With block_on_overflow a
+                                   faulty request that does not fit parks like any other ([faulty] remembers it). *)
 
 Definition lock_free (s : st) : bool := match lock s with Free => true | _ => false end.
 
@@ -367,7 +369,14 @@ Definition step (c : cfg) (s : st) (l : label) : option (st * Z) :=
   | LRelockTok p =>
       if lock_free s then
         match pget p (prods s) with
-        | Some (PLeftTok sz) => Some (try_add c p sz s)
+        | Some (PLeftTok sz) =>
+            match find_id p (faulty s) with
+            | Some k =>   (* a parked producer whose request cannot be stored: past the capacity loop it returns its
+                             error; the wake-up it consumed is NOT passed on (no Signal on the error paths) *)
+                if size s + sz >? cap c then Some (try_add c p sz s)
+                else Some (setp p (PRet (RErr k)) s, k)
+            | None => Some (try_add c p sz s)
+            end
         | _ => None
         end
       else None
@@ -419,7 +428,9 @@ Definition step (c : cfg) (s : st) (l : label) : option (st * Z) :=
         match pget p (prods s), kind c with
         | None, Pers =>
             if size s + sz >? cap c then
-              if blocking c then None else Some (setp p (PRet RFull) s, c_full)
+              if blocking c
+              then Some (set_faulty (faulty s ++ [(p, k)]) (setp p (PInSelect sz) (set_waiting (waiting s + 1) s)), c_blocked)
+              else Some (setp p (PRet RFull) s, c_full)
             else Some (setp p (PRet (RErr k)) s, k)
         | _, _ => None
         end
@@ -489,6 +500,7 @@ Definition sum_sz (l : list (nat * Z)) : Z := sumZ (map snd l).
 Definition fit_label (c : cfg) (l : label) : Prop :=
   match l with
   | LOffer _ sz => kind c = Pers -> sz <= cap c
+  | LOfferF _ sz _ => sz <= cap c
   | _ => True
   end.
 
